@@ -95,8 +95,10 @@ func (c *tcpConnectionActor) onReadConn(ctx vivid.ActorContext) (fatal bool, err
 	reader := c.reader
 	lengthBuf := make([]byte, 4)
 	if _, err = io.ReadFull(reader, lengthBuf); err != nil {
-		// 对等连接已关闭
+		// 对等连接已关闭：读循环到此结束，必须终止本 Actor 以释放其名称（accept-<对端地址> / dial-<...>），
+		// 否则同一对端地址的后续连接会因 Actor 重名而无人读取，其上的消息全部无声丢失
 		if errors.Is(err, io.EOF) {
+			ctx.Kill(ctx.Ref(), false, "peer closed")
 			return false, nil
 		}
 		// 当消息读取失败时，意味着连接已断开，终止 Actor
